@@ -31,16 +31,30 @@ type C14Case struct {
 	Place string `json:"place"`
 }
 
+// stallBody is a response body that never completes: Read blocks until the body is closed
+type stallBody struct {
+	once sync.Once
+	ch   chan struct{}
+}
+
+func (b *stallBody) Read(p []byte) (int, error) { <-b.ch; return 0, io.ErrClosedPipe }
+func (b *stallBody) Close() error               { b.once.Do(func() { close(b.ch) }); return nil }
+
 type scriptHTTP struct {
-	st   int
-	hdr  http.Header
-	body []byte
+	stall bool // the body never completes (a server that keeps the connection open and sends nothing more)
+	st    int
+	hdr   http.Header
+	body  []byte
 }
 
 func (s *scriptHTTP) Do(req *http.Request) (*http.Response, error) {
 	if req.Body != nil {
 		io.Copy(io.Discard, req.Body)
 		req.Body.Close()
+	}
+	if s.stall {
+		return &http.Response{StatusCode: s.st, Status: fmt.Sprintf("%d %s", s.st, http.StatusText(s.st)), Proto: "HTTP/1.1", ProtoMajor: 1, ProtoMinor: 1,
+			Header: s.hdr.Clone(), Body: &stallBody{ch: make(chan struct{})}, Request: req, ContentLength: -1}, nil
 	}
 	return &http.Response{StatusCode: s.st, Status: fmt.Sprintf("%d %s", s.st, http.StatusText(s.st)), Proto: "HTTP/1.1", ProtoMajor: 1, ProtoMinor: 1,
 		Header: s.hdr.Clone(), Body: io.NopCloser(strings.NewReader(string(s.body))), Request: req, ContentLength: int64(len(s.body))}, nil
@@ -76,6 +90,11 @@ func response(href, mand, opt, place string, more ...string) string {
 		return out + ps(xcode, all[k-1]) + `</D:response>`
 	}
 	var rcode int
+	if n, _ := fmt.Sscanf(place, "resperr%d", &rcode); n == 1 {
+		// a failed response that explains itself twice: a DAV:error condition element and a human-readable description
+		return fmt.Sprintf(`<D:response><D:href>%s</D:href><D:status>HTTP/1.1 %d %s</D:status><D:error><C:%s/></D:error><D:responsedescription>it did not work out</D:responsedescription></D:response>`,
+			href, rcode, http.StatusText(rcode), condName)
+	}
 	if n, _ := fmt.Sscanf(place, "resp%d", &rcode); n == 1 {
 		return fmt.Sprintf(`<D:response><D:href>%s</D:href><D:status>HTTP/1.1 %d %s</D:status></D:response>`, href, rcode, http.StatusText(rcode))
 	}
@@ -226,6 +245,8 @@ func buildResponse(c C14Case, variant int) *scriptHTTP {
 			cut = len(valid) * (30 + variant%60) / 100
 		}
 		s.body = []byte(valid[:cut])
+	case "stalled":
+		s.stall = true
 	case "garbage":
 		s.body = []byte("\x00\xff\xfe<<<>>>&&& not xml at all \x1b[0m")
 	case "html":
